@@ -63,6 +63,20 @@ fn finite_memory_long<T: Dom>(vk: VK, kk: usize, p: usize, q: usize, tail: Tail,
         if t + 1 >= kk { T::oblige(&format!("{} prefixes {p}/{q}, after {} shared values (K={kk}, {tail:?} suffix): both histories give the same output", vk.name(), t + 1), opt_eq(a.last(), b.last())); }
     }
 }
+/// one history starts fresh, the other has a long private prefix (alternating between two symbolic values, `plen` long);
+/// shared suffix: a flat run of N+1 equal values followed by free values
+fn finite_memory_longprefix<T: Dom>(vk: VK, kk: usize, plen: usize, n: usize) {
+    let (mut a, mut b) = (mk::<T>(&vk, None), mk::<T>(&vk, None));
+    let (u, v) = (T::input("u"), T::input("v"));
+    for i in 0..plen { b.update(if i % 2 == 0 { u } else { v }); }
+    let c = T::input("c");
+    for t in 0..n + 1 + 3 {
+        let s = if t <= n { c } else { T::input(&format!("s{t}")) };
+        a.update(s);
+        b.update(s);
+        if t + 1 >= kk { T::oblige(&format!("{} fresh vs {plen}-value prefix, after {} shared values (K={kk}): both histories give the same output", vk.name(), t + 1), opt_eq(a.last(), b.last())); }
+    }
+}
 pub fn units(tier: Tier, _seed: u64) -> Vec<Unit> {
     let q_ = tier == Tier::Quick;
     let ns: Vec<usize> = if q_ { vec![1, 2] } else { vec![1, 2, 3, 4] };
@@ -106,13 +120,21 @@ pub fn units(tier: Tier, _seed: u64) -> Vec<Unit> {
             } }
         }
     }
+    for &n in &(if q_ { vec![2usize, 3] } else { vec![2usize, 3, 4, 6] }) {
+        for vk in [VK::Sma(n), VK::Cumulative(n), VK::WelfordOnline(n), VK::Vst(n), VK::Vsct(n), VK::Min(n), VK::Max(n), VK::HLNormalizer(n), VK::BinaryEntropy(n), VK::CoG(n), VK::Roc(n), VK::Rsi(n), VK::MyRSI(n), VK::Alma(n)] {
+            let kk = match vk { VK::Roc(_) | VK::Rsi(_) | VK::MyRSI(_) => n + 1, VK::Alma(_) => 2 * n, _ => n };
+            // MyRSI's documented exception (flat suffix) and Roc's zero base do not arise: the suffix ends with free values and K counts from its end
+            if matches!(vk, VK::MyRSI(_) | VK::Roc(_) | VK::Alma(_)) { continue; }
+            u.push(unit!(format!("C03/{}/K={kk}/fresh-vs-prefix={}", vk.name(), 8 * n + 3), finite_memory_longprefix(vk.clone(), kk, 8 * n + 3, n)));
+        }
+    }
     for x in u.iter_mut() { x.budget_s = if q_ { 30.0 } else { 900.0 }; x.max_decisions = 60000; x.path_cap = if q_ { 3000 } else { 20000 }; }
     u
 }
 pub fn meta() -> Meta {
     Meta {
         functions: vec!["Sma", "Cumulative", "Min", "Max", "Roc", "WelfordOnline", "Vst", "Vsct", "HLNormalizer", "BinaryEntropy", "CenterOfGravity", "CorrelationTrendIndicator", "NoiseEliminationTechnology", "Rsi", "MyRSI", "Alma", "PolarizedFractalEfficiency over Sma(M) and over a harness M-window mean — each ::{new,update,last}, two instances"],
-        bounds: "N in {1,2} (quick) / {1..4} (thorough) (CTI/NET/PFE at their minimum 3, NET to 4); private prefix lengths (p,q) in {(0,1),(1,2)} (quick) / {(0,1),(1,0),(1,2),(2,1),(0,3),(3,1)} (thorough); shared suffix K as in the statement, plus one further shared value; prefix values are unconstrained reals ('arbitrarily large'); exceptions encoded as assumptions on the shared suffix only (MyRSI: suffix not flat; Roc: x_(t-N) != 0); all comparison outcomes of both instances; in addition long shared suffixes (10N+8 values: strictly decreasing / increasing for Min, Max, HLNormalizer; alternating-then-flat for Sma, Cumulative, WelfordOnline, Vst, Vsct, Max, BinaryEntropy, CoG) after prefixes (1,3) and (0,2), N in {1,2,3} (quick) / {1,2,3,4,6}",
+        bounds: "N in {1,2} (quick) / {1..4} (thorough) (CTI/NET/PFE at their minimum 3, NET to 4); private prefix lengths (p,q) in {(0,1),(1,2)} (quick) / {(0,1),(1,0),(1,2),(2,1),(0,3),(3,1)} (thorough); shared suffix K as in the statement, plus one further shared value; prefix values are unconstrained reals ('arbitrarily large'); exceptions encoded as assumptions on the shared suffix only (MyRSI: suffix not flat; Roc: x_(t-N) != 0); all comparison outcomes of both instances; in addition long shared suffixes (10N+8 values: strictly decreasing / increasing for Min, Max, HLNormalizer; alternating-then-flat for Sma, Cumulative, WelfordOnline, Vst, Vsct, Max, BinaryEntropy, CoG) after prefixes (1,3) and (0,2), N in {1,2,3} (quick) / {1,2,3,4,6}; and a fresh history against one with an (8N+3)-value alternating private prefix, shared suffix = flat run of N+1 then 3 free values, N in {2,3} / {2,3,4,6}",
         outside: vec!["prefixes longer than 3 (a leak needing >= 4 stale values to show)", "N > 4", "'up to rounding': decided over the reals"],
         assumptions: vec![],
     }
